@@ -5,6 +5,7 @@ package engine
 
 import (
 	"fmt"
+	"io/fs"
 	"reflect"
 	"strings"
 	"time"
@@ -47,6 +48,8 @@ type UMsg struct {
 	Internal bool
 	// cPanic: the panic is raised 150 frames below Receive
 	Deep bool
+	// cPanic: kind of panic value (0 string, 1 error, 2 error holding a nil pointer, 3 struct)
+	PanicVal int
 	// cSpawnChild: observer of the stages of the SpawnChild call
 	Hook func(stage int)
 }
@@ -64,6 +67,9 @@ func (m *UMsg) String() string {
 		}
 		if m.Deep {
 			s += "(deep)"
+		}
+		if m.PanicVal != 0 {
+			s += fmt.Sprintf("(value kind %d)", m.PanicVal)
 		}
 	case cSpawnChild:
 		s += "!spawn:" + m.Name
@@ -434,6 +440,7 @@ func (env *Env) middleware(id string, i int) actor.MiddlewareFunc {
 
 // Receive records the delivery and obeys the command carried by the message.
 func (s *scripted) Receive(c *actor.Context) {
+	simrt.ScriptedPanicOver()
 	env, in := s.env, s.in
 	k, um, other := msgKind(c.Message())
 	d := &Delivery{Seq: env.tick(), Actor: in.ID, Inc: s.inc, Kind: k, Msg: um, Other: other, Sender: c.Sender(), SimTime: simrt.Now(), Task: simrt.Cur().ID}
@@ -539,7 +546,21 @@ func (s *scripted) obey(c *actor.Context, m *UMsg) {
 			simrt.Fault("actor-crash-deep-stack")
 			deepPanic(150, fmt.Sprintf("scripted crash on %s in %s inc %d", m, in.ID, s.inc))
 		}
-		panic(fmt.Sprintf("scripted crash on %s in %s inc %d", m, in.ID, s.inc))
+		text := fmt.Sprintf("scripted crash on %s in %s inc %d", m, in.ID, s.inc)
+		switch m.PanicVal {
+		case 1: // an error value
+			simrt.ScriptedPanic(fmt.Errorf("%s", text))
+		case 2: // an error holding a nil pointer: calling Error() on it panics in its turn
+			var pe *fs.PathError
+			var err error = pe
+			simrt.ScriptedPanic(err)
+		case 3: // a struct value
+			simrt.ScriptedPanic(struct {
+				Why  string
+				Code int
+			}{text, 7})
+		}
+		panic(text)
 	case cSpawnChild:
 		env.ev("spawnchild", in.ID, m.Spec.FullID(), nil, nil)
 		prod := env.producer(m.Spec, in.ID)
